@@ -379,4 +379,56 @@ ImplDecodeO(x, chain, form, orc, devAvg, devArr, devNul) ==
             ELSE Fail(xx)
     IN FoldLeft(LAMBDA acc, i : IF acc.ok THEN St(acc.data, i) ELSE acc, Good(x), [i \in 1..Len(chain) |-> i])
 
+-----------------------------------------------------------------------------
+(* Thread history.  Decoding is a function of (content, dictionary) alone: the declarative     *)
+(* Decode above has no other argument.  An implementation may keep scratch memory between      *)
+(* calls (lopdf's candidates: the two row buffers of png::decode_frame); the impl-shaped layer  *)
+(* below threads such a scratch state `rows` = [prev, cur] through every decode so that TLC can  *)
+(* check that no sequence of earlier decodes - in particular decodes that FAIL part-way: a row   *)
+(* cut off at any offset, a bad filter-type byte in row k, a cut zlib stream, a bad LZW code, a  *)
+(* bad ASCII85 group - changes the result of a later one.                                       *)
+(*   devRows   the row buffers are kept per thread, re-sized on entry (Vec::resize keeps the     *)
+(*             old prefix) and cleared only at the end of a *successful* decode                  *)
+(* With devRows = FALSE (the code as it is) the buffers are fresh zeros for every call.          *)
+
+CleanRows == [prev |-> <<>>, cur |-> <<>>]
+Resize(v, L) == [i \in 1..L |-> IF i <= Len(v) THEN v[i] ELSE 0]          \* Vec::resize(L, 0)
+
+\* png::decode_frame; returns [ok, data, rows]
+ImplPngDecodeT(enc, bpp, L, rows, devRows) ==
+    IF enc = <<>> THEN [ok |-> TRUE, data |-> <<>>, rows |-> rows]
+    ELSE IF L >= Len(enc) THEN [ok |-> FALSE, data |-> <<>>, rows |-> rows]      \* row longer than the data: refused before the buffers
+    ELSE LET p0 == IF devRows THEN Resize(rows.prev, L) ELSE Zeros(L)
+             c0 == IF devRows THEN Resize(rows.cur, L) ELSE Zeros(L)
+             n  == (Len(enc) + L) \div (L + 1)
+             S  == FoldLeft(LAMBDA acc, r :
+                        IF ~acc.ok THEN acc
+                        ELSE IF enc[(r - 1) * (L + 1) + 1] > 4 THEN [acc EXCEPT !.ok = FALSE]      \* invalid filter type
+                        ELSE IF r * (L + 1) > Len(enc) THEN [acc EXCEPT !.ok = FALSE]                \* read_exact: row cut off
+                        ELSE LET row == ImplPngDecodeRow(enc[(r - 1) * (L + 1) + 1], bpp, acc.prev,
+                                                         SubSeq(enc, (r - 1) * (L + 1) + 2, r * (L + 1)), FALSE)
+                             IN [ok |-> TRUE, prev |-> row, cur |-> acc.prev, out |-> acc.out \o row],   \* mem::swap
+                      [ok |-> TRUE, prev |-> p0, cur |-> c0, out |-> <<>>], [r \in 1..n |-> r])
+         IN [ok |-> S.ok, data |-> S.out,
+             rows |-> IF devRows /\ ~S.ok THEN [prev |-> S.prev, cur |-> S.cur] ELSE CleanRows]
+
+\* lopdf keeps whatever the inflater produced before an error (decompress_zlib only warns)
+ImplInflateLenient(x, orc) == IF orc.has THEN orc.data ELSE ZInflateStored(x).data
+
+\* Stream::decompressed_content with the scratch state; returns [ok, data, rows]
+ImplDecodeT(x, chain, form, orc, rows, devRows) ==
+    LET P(i) == IF form = "dict" THEN chain[1] ELSE IF form = "array" THEN chain[i] ELSE DefaultParms
+        Unp(d, p, rw) == IF p.present /\ UsesPng(p) THEN ImplPngDecodeT(d, Bpp(p), RowLen(p), rw, devRows)
+                         ELSE [ok |-> TRUE, data |-> d, rows |-> rw]
+        St(acc, i) ==
+            LET f == chain[i].f p == P(i) IN
+            IF f = A85 THEN LET z == A85Decode(acc.data) IN [ok |-> z.ok, data |-> z.data, rows |-> acc.rows]
+            ELSE IF f = Flate THEN Unp(ImplInflateLenient(acc.data, IF i = 1 THEN orc ELSE NoOracle), p, acc.rows)
+            ELSE IF f = Lzw THEN LET z == LzwDecode(acc.data, IF p.present THEN p.early ELSE 1)
+                                 IN IF z.ok THEN Unp(z.data, p, acc.rows) ELSE [ok |-> FALSE, data |-> z.data, rows |-> acc.rows]
+            ELSE [ok |-> FALSE, data |-> acc.data, rows |-> acc.rows]
+    IN IF chain = <<>> THEN [ok |-> TRUE, data |-> x, rows |-> rows]
+       ELSE FoldLeft(LAMBDA acc, i : IF acc.ok THEN St(acc, i) ELSE acc, [ok |-> TRUE, data |-> x, rows |-> rows],
+                     [i \in 1..Len(chain) |-> i])
+
 =============================================================================
